@@ -6,4 +6,6 @@ pub mod circ;
 pub mod engine;
 pub mod exec;
 pub mod filebuf;
+pub mod pre;
+pub mod prims;
 pub mod server;
